@@ -6,7 +6,7 @@ from prover import Proof  # noqa: E402
 
 ENV = ['language_flags_from_filename', 'language_name_from_flags', 'keywords_are_sorted', 'init_keywords_for_language', 'load_mem_file',
        'uncrustify_file', 'uncrustify_end', 'bout_content_matches', 'backup_copy_file', 'backup_create_md5_file', 'make_folders_c',
-       'file_content_matches_c', 'fopen', 'fputc', 'ferror', 'fclose', 'rename', 'unlink', 'utime', 'exit']
+       'file_content_matches_c', 'fopen', 'fputc', 'ferror', 'fflush', 'fileno', 'fsync', 'fclose', 'rename', 'unlink', 'utime', 'exit']
 L_dsf = [dict(fn='do_source_file', id=0, vars=['__i0'], assigns='__i0, g_tmp_write_error',
               inv='__i0 <= D8_size(CPD(bout))', decreases='D8_size(CPD(bout)) - __i0')]
 
